@@ -313,6 +313,8 @@ pub enum Ent {
     Execute,
     Instantiate,
     Reply,
+    /// the reply handler invoked after a FAILED sub-message
+    ReplyErr,
     Sudo,
     Migrate,
 }
@@ -358,6 +360,20 @@ fn build(w: &RWorld, origin: Origin, ent: Ent, msg: &CosmosMsg<PMsg>, mode: RMod
                             mode: RMode::Success,
                             payload: Payload::Plan(Box::new(ReplyPlan { nonce: tag + 5, on_ok: emit, on_err: Script { tag: tag + 6, ..Default::default() } })),
                             msg: Msg::BankSend { to: emitter.clone(), coins: vec![coin(1, "ua")] },
+                        }],
+                        ..Default::default()
+                    };
+                    (Msg::Exec { addr: emitter.clone(), script: Box::new(outer), funds: vec![] }, Some(emitter.clone()))
+                }
+                Ent::ReplyErr => {
+                    let outer = Script {
+                        tag: tag + 4,
+                        msgs: vec![Sub {
+                            id: 9,
+                            mode: RMode::Error,
+                            payload: Payload::Plan(Box::new(ReplyPlan { nonce: tag + 5, on_ok: Script { tag: tag + 6, ..Default::default() }, on_err: emit })),
+                            // burning nothing always fails in the bank
+                            msg: Msg::BankBurn { coins: vec![] },
                         }],
                         ..Default::default()
                     };
